@@ -143,7 +143,7 @@ void thrift_write_field_header(thrift_encoder_t* enc, int type, int16_t field_id
         last_id = enc->last_field_id[enc->nesting_level - 1];
     }
 
-    int16_t delta = field_id - last_id;
+    int delta = (int)field_id - (int)last_id;   /* no 16-bit wrap-around */
 
     if (delta > 0 && delta <= 15) {
         /* Use compact form: delta in upper nibble, type in lower */
